@@ -235,6 +235,19 @@ func NewRun(h Hist) *Run {
 	return r
 }
 
+func (r *Run) hasBA(s *Snap, kk [2]int) bool {
+	a := s.Allocs[kk[0]]
+	if a == nil {
+		return false
+	}
+	for _, d := range a.BAs {
+		if d.Blobber == kk[1] {
+			return true
+		}
+	}
+	return false
+}
+
 func (r *Run) Snapshot() *Snap {
 	ctx := r.W.View()
 	s := &Snap{Allocs: map[int]*AllocProj{}, RP: map[int]uint64{}, Bal: map[int]uint64{}, Ass: map[int]*AssProj{},
@@ -285,6 +298,18 @@ func (r *Run) Snapshot() *Snap {
 			p.OpenCh = append(p.OpenCh, OC{Ch: r.chNum(oc.ID), Blobber: r.ref(oc.BlobberID), Created: oc.Created, Round: oc.RoundCreated})
 		}
 		s.Allocs[l] = p
+	}
+	// a blobber that left an allocation (replaced / removed) starts from an empty root if it joins again:
+	// forget the engine-side root numbers of pairs that are no longer part of the real state
+	for kk := range r.Roots {
+		if !r.hasBA(s, kk) {
+			delete(r.Roots, kk)
+		}
+	}
+	for kk := range r.LWMPrev {
+		if !r.hasBA(s, kk) {
+			delete(r.LWMPrev, kk)
+		}
 	}
 	// allocation-challenge nodes outlive their allocation; keep numbering stable only
 	for i := range r.H.Blobbers {
